@@ -99,7 +99,7 @@ def sumPRBM (l : List (PRBM α n h a)) : PRBM α n h a := l.foldl PRBM.add PRBM.
 
 /-- the distinct basis strings of a batch (`np.unique(bases, axis=0)`; numpy returns them sorted, which only
 affects the order of accumulation) -/
-def uniqueBases (D : List (Sample n)) : List (List Char) := (D.map (·.basis)).eraseDups
+def uniqueBases (D : List (Sample n)) : List (List Char) := (D.map (·.basis)).foldr List.insert []
 
 /-- `NeuralStateBase.gradient(samples, bases)` for the complex state: for each unique basis, the gradient of
 the rows measured in it (all-Z groups through the fast path), accumulated. -/
